@@ -130,18 +130,32 @@ func runC19(c *Ctx) {
 		}
 	}
 	resolve := p.MustFunc("(*operation).resolveMethod")
+	resolveFamily := p.Family(resolve)
 	var agCall ssa.Value
-	for _, call := range Calls(resolve) {
-		if call.Common().IsInvoke() && N(call.Common().Method) == "allowsGetRequests" {
-			agCall = call.Value()
+	for _, rf := range resolveFamily {
+		for _, call := range Calls(rf) {
+			if call.Common().IsInvoke() && N(call.Common().Method) == "allowsGetRequests" {
+				agCall = call.Value()
+			}
 		}
 	}
 	if agCall == nil {
 		c.Bad("C19.1", FuncName(resolve), "predicate-consulted", resolve.Pos(), "method resolution never consults the GET-acceptance predicate")
 	} else {
-		paths, ok := EnumPaths(resolve.Blocks[0], nil, IsReturn, 0)
-		if !ok {
-			c.Unknown("C19.1", FuncName(resolve), "paths", resolve.Pos(), "too many paths")
+		var paths []CFGPath
+		for _, rf := range resolveFamily {
+			if rf != agCall.(ssa.Instruction).Parent() {
+				continue // the accepting paths are those of the function that consults the predicate
+			}
+			ps, ok := EnumPaths(rf.Blocks[0], nil, IsReturn, 0)
+			if !ok {
+				c.Unknown("C19.1", FuncName(rf), "paths", rf.Pos(), "too many paths")
+			}
+			for _, cp := range ps {
+				if !ForwardsMember(cp.End.(*ssa.Return), resolveFamily) {
+					paths = append(paths, cp)
+				}
+			}
 		}
 		n := 0
 		for _, cp := range paths {
@@ -167,7 +181,15 @@ func runC19(c *Ctx) {
 	// 405 literals carry Allow
 	httpErrT := p.MustNamed("httpError")
 	codeFld, hdrFld := p.MustField("httpError", "code"), p.MustField("httpError", "header")
-	ForEachInstr(resolve, func(in ssa.Instruction) {
+	for _, rf := range resolveFamily {
+		scan405(c, rf, resolve, httpErrT, codeFld, hdrFld)
+	}
+
+	runC19rest(c)
+}
+
+func scan405(c *Ctx, rf, resolve *ssa.Function, httpErrT *types.Named, codeFld, hdrFld *types.Var) {
+	ForEachInstr(rf, func(in ssa.Instruction) {
 		al, ok := in.(*ssa.Alloc)
 		if !ok || !types.Identical(al.Type().(*types.Pointer).Elem(), httpErrT) {
 			return
@@ -197,7 +219,11 @@ func runC19(c *Ctx) {
 		c.Check(hasAllow, "C19.1", FuncName(resolve), "405-has-allow", al.Pos(),
 			"the 405 error carries an Allow header", "a 405 error is built without an Allow header")
 	})
+}
 
+func runC19rest(c *Ctx) {
+	p := c.P
+	nse := noSideEffectsConst(p)
 	// ---------------------------------------------------------------- C19.2
 	c.Rule("C19.3", "GET carries no body: includeBody=false, body drained on that edge, GET body preparer returns no bytes", 3)
 	c.Rule("C19.2", "GET is issued only under useGet and within the URL limit; useGet is the three-way conjunction; Request.Method stored only from the builder or POST", 6)
